@@ -254,6 +254,8 @@ def cases(M):
     # history: units that start on the same weekday but differ in length (February, first quarter and year of a leap
     # vs a common year) visited one after the other in ONE process, in both orders (anything memoised per unit shape)
     yield {"k": "history", "order": M.shard % 2, "kind": ("date", "utc", "zone")[M.shard % 3]}
+    if M.shard % 4 == 0:
+        yield {"k": "edge"}
     j = 0
     for y in years:
         for mo in range(1, 13):
@@ -328,6 +330,34 @@ def run(M, c):
         for unit in ("month", "quarter", "year"):
             _quiet(x.first_of, unit)
             _quiet(x.last_of, unit)
+        return
+    if c.get("k") == "edge":
+        # the first and last week of the representable range (Date): the answer either exists and must be returned, or lies
+        # outside the range and the call must raise - an intermediate step outside the range is not a reason to fail
+        lo, hi = dt.date.min.toordinal(), dt.date.max.toordinal()
+        for o in list(range(lo, lo + 9)) + list(range(hi - 8, hi + 1)):
+            d = dt.date.fromordinal(o)
+            x = P.Date(d.year, d.month, d.day)
+            for wd in range(7):
+                for name, step in (("next", 1), ("previous", -1)):
+                    e = o + step
+                    while lo <= e <= hi and dt.date.fromordinal(e).weekday() != wd:
+                        e += step
+                    want = dt.date.fromordinal(e) if lo <= e <= hi else None
+                    M.quiet += 1
+                    try:
+                        try:
+                            got = getattr(x, name)(P.WeekDay(wd))
+                            res = (got.year, got.month, got.day)
+                        except (OverflowError, ValueError) as ex:
+                            res = "raised-" + type(ex).__name__
+                    finally:
+                        M.quiet -= 1
+                    ok = res == (want.year, want.month, want.day) if want is not None else isinstance(res, str)
+                    M.check(name, ok, f"C16/Date.{name}:range-edge:" + ("raised-although-representable" if isinstance(res, str) else "wrong"),
+                            f"Date.{name} at the end of the representable range", x=str(d), wd=wd, got=res, want=str(want))
+                    M.cls("edge", o - lo if o < lo + 20 else o - hi, wd, name)
+        M.sample(c)
         return
     if c.get("k") == "history":
         WD = P.WeekDay
